@@ -210,6 +210,15 @@ func genPipeScenario(rc *RunCtx, allowStdin bool, maxLinesPerInput int) *pipeSce
 		in.Plan.ErrAt = int64(t.F(len(in.Data) + 1))
 		in.Plan.ErrWithData = t.FBool(1, 2)
 	}
+	if rc.Faults && !sc.Stdin && t.FBool(1, 4) {
+		// open failures, possibly as many as (or more than) there are reader slots
+		for i := range sc.Inputs {
+			if t.FBool(1, 2) {
+				sc.Inputs[i].Plan.OpenErr = true
+				sc.Inputs[i].Plan.ErrAt = -1
+			}
+		}
+	}
 	return sc
 }
 
@@ -477,7 +486,12 @@ type pipeRef struct {
 }
 
 // delivered returns the bytes of an input that its reader hands over before EOF or the injected error.
+func (in *pipeInput) failsOpen() bool { return in.Plan != nil && in.Plan.OpenErr }
+
 func (in *pipeInput) delivered() []byte {
+	if in.failsOpen() {
+		return nil
+	}
 	if in.Plan != nil && in.Plan.ErrAt >= 0 && in.Plan.ErrAt < int64(len(in.Data)) {
 		return in.Data[:in.Plan.ErrAt]
 	}
@@ -485,6 +499,9 @@ func (in *pipeInput) delivered() []byte {
 }
 
 func (in *pipeInput) failsRead() bool {
+	if in.failsOpen() {
+		return true
+	}
 	return in.Plan != nil && in.Plan.ErrAt >= 0 && in.Plan.ErrAt <= int64(len(in.Data))
 }
 
@@ -618,7 +635,7 @@ func checkCounts(rc *RunCtx, sc *pipeScenario, ref *pipeRef, out *pipeOutcome) {
 		}
 	}
 	if out.ReadErrors != wantErr {
-		rc.Violate("read-errors", "ReadErrors=%d, injected %d read errors", out.ReadErrors, wantErr)
+		rc.Violate("read-errors", "ReadErrors=%d, injected %d open/read errors", out.ReadErrors, wantErr)
 	}
 }
 
